@@ -624,7 +624,8 @@ class Program:
                                 out[nm.value] = ai
                         elif f.attr in c.methods or c.lookup_method(f.attr) is not None:
                             m = c.lookup_method(f.attr)
-                            if m is not None and m.cls is c:
+                            # a helper of this class or of a base class, called by this constructor on self
+                            if m is not None and m.name != "__init__":
                                 todo.append(m)
         return out
 
